@@ -92,6 +92,9 @@ Proof. intros n H. cbn [le_bytes le_val]. lia. Qed.
 Lemma le_val_4 : forall n, n < 4294967296 -> le_val (le_bytes 4 n) = n.
 Proof. intros n H. cbn [le_bytes le_val]. lia. Qed.
 
+Lemma nlen_app_ge : forall (d rest : bytes), (nlen (d ++ rest) <? nlen d) = false.
+Proof. intros d rest. apply N.ltb_ge. unfold nlen. rewrite app_length. lia. Qed.
+
 Lemma parse_ser_op : forall o f rest,
     wf_op o -> parse_aux (S f) (ser_op o ++ rest) = option_map (cons o) (parse_aux f rest).
 Proof.
@@ -105,19 +108,19 @@ Proof.
       unfold push_rest. now rewrite nlen_nat, take_app.
     + cbn [ser_op app parse_aux N.eqb Pos.eqb N.leb N.compare Pos.compare Pos.compare_cont].
       unfold len_then, take. cbn [length Nat.ltb Nat.leb firstn skipn le_val].
-      replace (N.to_nat (nlen d + 256 * 0)) with (length d) by (rewrite <- (nlen_nat d); lia).
+      replace (nlen d + 256 * 0) with (nlen d) by lia. rewrite nlen_app_ge, nlen_nat.
       unfold push_rest. now rewrite take_app.
     + cbn [ser_op parse_aux N.eqb Pos.eqb N.leb N.compare Pos.compare Pos.compare_cont].
       change ((77 :: le_bytes 2 (nlen d) ++ d) ++ rest) with (77 :: (le_bytes 2 (nlen d) ++ d) ++ rest).
       cbn [parse_aux N.eqb Pos.eqb N.leb N.compare Pos.compare Pos.compare_cont].
       unfold len_then. rewrite <- app_assoc.
-      change 2%nat with (length (le_bytes 2 (nlen d))) at 1. rewrite take_app, le_val_2 by assumption.
+      change 2%nat with (length (le_bytes 2 (nlen d))) at 1. rewrite take_app, le_val_2 by assumption. rewrite nlen_app_ge.
       unfold push_rest. now rewrite nlen_nat, take_app.
     + cbn [ser_op].
       change ((78 :: le_bytes 4 (nlen d) ++ d) ++ rest) with (78 :: (le_bytes 4 (nlen d) ++ d) ++ rest).
       cbn [parse_aux N.eqb Pos.eqb N.leb N.compare Pos.compare Pos.compare_cont].
       unfold len_then. rewrite <- app_assoc.
-      change 4%nat with (length (le_bytes 4 (nlen d))) at 1. rewrite take_app, le_val_4 by assumption.
+      change 4%nat with (length (le_bytes 4 (nlen d))) at 1. rewrite take_app, le_val_4 by assumption. rewrite nlen_app_ge.
       unfold push_rest. now rewrite nlen_nat, take_app.
   - destruct W as [W1 W2]. cbn [ser_op app]. rewrite parse_step_simple by assumption. now rewrite W2.
 Qed.
